@@ -116,6 +116,14 @@ class Report:
                 r[1] += int(o.held)
             for r, (n, h) in sorted(by_rule.items()):
                 print(f"  {r}: {h}/{n}")
+            st = getattr(self, "stability", None)
+            if st:
+                if "error" in st:
+                    print(f"  stability pass did not run: {st['error']}")
+                else:
+                    print(f"  stability: {st['verdict_unchanged']}/{st['rewrites_applicable']} behaviour-preserving rewrites of {st['functions']} functions leave the verdict where it is")
+                    for m in st["verdict_moved"][:5]:
+                        print(f"    moved under `{m['rewrite']}` of {m['function']}: {m['moved'][:2]}")
             for c in self.controls:
                 if not c["fired"]:
                     print(f"  control not fired: {c['rule']} / {c['control']} ({c['note']})")
@@ -166,6 +174,7 @@ class Report:
                 "inconclusive_count": len(self.inconclusive),
                 "controls": self.controls,
                 "known_findings_reported": n_known,
+                **({"stability": self.stability} if getattr(self, "stability", None) is not None else {}),
                 "trusted_base": ["CPython ast", "transcribed spec tables under /verif/specs", "frozen rule tables under /verif/rules"],
                 "exhaustive": False,
             },
